@@ -39,6 +39,10 @@ def config_histories(tier, rng):
                         break
             else:
                 hs.append({"base": 0, "cfg": muxgen.DEFAULT_CFG, "ops": [{"add": muxgen.tc(kind, **kw)}] + samples})
+    # parameter sets that look like Annex B byte streams (start codes, emulation prevention): they are opaque bytes to the muxer
+    ps = muxgen.structured_param_sets()
+    for i, sps in enumerate(ps):
+        hs.append({"base": 0, "cfg": muxgen.DEFAULT_CFG, "ops": [{"add": muxgen.tc("avc", sps=sps, pps=ps[(i * 5 + 3) % len(ps)])}] + samples})
     # languages, timescales, brands
     langs = [b"und", b"eng", b"aaa", b"zzz", b"qaz"] + [bytes(rng.choice(b"abcdefghijklmnopqrstuvwxyz") for _ in range(3)) for _ in range(20)]
     for lang in langs:
